@@ -131,7 +131,7 @@ def c01_one(w, inp, c):
 
 def run_C01(w):
     for inp, c in programs(w):
-        c01_one(w, inp, c)
+        w.guard(c01_one, w, inp, c)
 
 
 # ------------------------------------------------------------------------------------------------
@@ -200,12 +200,12 @@ def c13_check(w, inp, k, dk, rd):
 
 def run_C02(w):
     for inp, c in programs(w):
-        c02_one(w, inp, c, True, False)
+        w.guard(c02_one, w, inp, c, True, False)
 
 
 def run_C13(w):
     for inp, c in programs(w):
-        c02_one(w, inp, c, False, True)
+        w.guard(c02_one, w, inp, c, False, True)
 
 
 # ------------------------------------------------------------------------------------------------
@@ -382,7 +382,7 @@ def c09_one(w, inp, c):
 
 def run_C09(w):
     for inp, c in programs(w):
-        c09_one(w, inp, c)
+        w.guard(c09_one, w, inp, c)
 
 
 # ------------------------------------------------------------------------------------------------
@@ -422,7 +422,7 @@ def c14_one(w, inp, c):
 
 def run_C14(w):
     for inp, c in programs(w):
-        c14_one(w, inp, c)
+        w.guard(c14_one, w, inp, c)
 
 
 RUN = {'C01': run_C01, 'C02': run_C02, 'C13': run_C13, 'C09': run_C09, 'C14': run_C14}
@@ -447,3 +447,6 @@ import p_c04  # noqa
 import p_c10  # noqa
 import p_c11  # noqa
 import p_c05  # noqa
+import p_json  # noqa
+import p_c16  # noqa
+import p_c15  # noqa
